@@ -63,6 +63,7 @@ package ch
 //@   requires *c != nil && *ctx != nil
 //@   modifies all(*c), all(*ctx)
 //@   ensures ctx.cancelled && !gotException.val ==> c.closed && err != nil {cancelled-closes-and-fails}
+//@   ensures receiveFailed.val && !gotException.val ==> c.closed [C04] {a-failed-receiver-closes-even-if-the-context-is-still-alive}
 //@   ensures err != nil ==> c.closed {error-means-closed}
 //@   ensures !ctx.cancelled ==> err == nil {no-cancel-no-error}
 //@   ensures gotException.val ==> c.closed == old(c.closed) && err == nil {exception-is-not-cancelled}
@@ -275,7 +276,7 @@ package ch
 //@   requires *c != nil && *ctx != nil && c.reader != nil
 //@ -- (frame, C12: the receiving goroutine writes the reader side only - never the writer, the
 //@ -- compressor or any other client field)
-//@   modifies all(c.reader), all(c.conn), all(*ctx), all(q.Result), gotException.val, all(q.OnLogs), all(q.OnLog)
+//@   modifies all(c.reader), all(c.conn), all(*ctx), all(q.Result), gotException.val, receiveFailed.val, all(q.OnLogs), all(q.OnLog)
 //@   ensures err == nil ==> code == 5 [C03] {nil-only-on-end-of-stream}
 //@ callsite (*Client).decodeBlock
 //@   assert code == 1 || code == 7 [C03] {blocks-only-for-data-and-totals-packets}
@@ -288,8 +289,14 @@ package ch
 //@   assert code != 1 && code != 7 && code != 5 [C04] {exception-test-is-applied-to-the-handlePacket-error}
 //@ callsite Bool).Store
 //@   assert code != 1 && code != 7 && code != 5 [C04] {exception-flag-only-on-the-handlePacket-path}
+//@ -- the cancel-watch goroutine wakes up when `done` is closed and closes the client only if it then
+//@ -- finds the query context dead: so a receiver that fails with anything but a server exception
+//@ -- must not signal `done` while the context is still alive (C04: a failed query leaves the client
+//@ -- closed)
+//@ callsite value:close#1
+//@   assert err == nil || gotException.val || ctx.cancelled || receiveFailed.val [C04] {a-failed-receiver-signals-done-only-when-the-cancel-watch-will-close}
 //@ loop 0 ()
-//@   modifies all(c.reader), all(c.conn), all(*ctx), all(q.Result), gotException.val, all(q.OnLogs), all(q.OnLog)
+//@   modifies all(c.reader), all(c.conn), all(*ctx), all(q.Result), gotException.val, receiveFailed.val, all(q.OnLogs), all(q.OnLog)
 //@   invariant *c != nil && *ctx != nil && c.reader != nil
 
 //@ -- the sending goroutine of Do: the query (with external data and its terminator) is flushed
